@@ -46,12 +46,28 @@
       for (;;) {                                                                            \
         T expected = old;                                                                   \
         T desired = expected + 1;                                                           \
-        _Bool ok = atomic_compare_exchange_strong(&OBJ, &old, desired);                        \
+        /* the desired value is given as an int expression: it is converted to the object's type, whatever its own width */ \
+        _Bool ok = atomic_compare_exchange_strong(&OBJ, &old, (int)desired);                \
         if (k < cap) { log[3 * k] = expected; log[3 * k + 1] = ok ? desired : old; log[3 * k + 2] = ok; k++; } \
         if (ok) { old = desired; break; }                                                   \
       }                                                                                     \
     }                                                                                       \
     return k;                                                                               \
+  }                                                                                         \
+  /* ownership cell: 0 = free, k = owned by thread k. A failed strong compare-exchange must report the value that made it fail (never 0). */ \
+  void w_claim_##S(AT *p, long n, unsigned long *log, unsigned long me) {              \
+    unsigned long won = 0, lost = 0, impossible = 0, wrong_owner = 0;                       \
+    for (long i = 0; i < n; i++) {                                                          \
+      T seen = 0;                                                                           \
+      if (atomic_compare_exchange_strong(&OBJ, &seen, (T)me)) {                             \
+        won++;                                                                              \
+        if (atomic_exchange(&OBJ, 0) != (T)me) wrong_owner++;                               \
+      } else {                                                                              \
+        lost++;                                                                             \
+        if (seen == 0) impossible++;                                                        \
+      }                                                                                     \
+    }                                                                                       \
+    log[0] = won; log[1] = lost; log[2] = impossible; log[3] = wrong_owner;                 \
   }                                                                                         \
   void w_shift_##S(AT *p, long n, unsigned long *log) {                              \
     for (long i = 0; i < n; i++) { log[2 * i] = (OBJ <<= 1); log[2 * i + 1] = (OBJ |= 1); }   \
@@ -86,6 +102,15 @@ void w_mulodd_p64(void *p, long n, unsigned long *log) { w_mulodd_u64(p, n, log)
 void w_xor_p64(void *p, long n, unsigned long *log, unsigned long mask) { w_xor_u64(p, n, log, mask); }
 void w_orand_p64(void *p, long n, unsigned long *log, unsigned long bit) { w_orand_u64(p, n, log, bit); }
 void w_exchange_p64(_Atomic(bytep) *p, long n, unsigned long *log, unsigned long first) { for (long i = 0; i < n; i++) log[i] = (unsigned long)atomic_exchange(p, (bytep)(first + i)); }
+void w_claim_p64(_Atomic(bytep) *p, long n, unsigned long *log, unsigned long me) {
+  unsigned long won = 0, lost = 0, impossible = 0, wrong_owner = 0;
+  for (long i = 0; i < n; i++) {
+    bytep seen = 0;
+    if (atomic_compare_exchange_strong(p, &seen, (bytep)me)) { won++; if (atomic_exchange(p, (bytep)0) != (bytep)me) wrong_owner++; }
+    else { lost++; if (seen == 0) impossible++; }
+  }
+  log[0] = won; log[1] = lost; log[2] = impossible; log[3] = wrong_owner;
+}
 long w_casloop_p64(_Atomic(bytep) *p, long n, unsigned long *log, long cap) {
   long k = 0;
   bytep old = atomic_load(p);
